@@ -247,10 +247,14 @@ func TestC11(t *testing.T) {
 			kit.DoReplay(s, t, rf, runShared)
 			return
 		}
+		if rf.Kind == "verdict" {
+			kit.DoReplay(s, t, rf, func(c c10VerdictCase) *kit.Failure { return runC10Verdict(t, s, c) })
+			return
+		}
 		kit.DoReplay(s, t, rf, run)
 		return
 	}
-	s.SetRule("rapid: the C01 worlds whose policy states additionally declare 0-3 global rules (threshold k in 1..3 or block-force-pushes; patterns matching the verified ref, another ref, a wildcard or nothing), with pushes, force pushes (non-descendant commits), approvals, annotations and policy changes. Oracles: (i) metamorphic monotonicity - the same history is built under P+G and under P alone, accept(P+G) => accept(P); (ii)/(iii) the reference model with global rules (policy-wide credit below k or a non-descendant target => reject, rule credit >= k and descendant => accept, in between unspecified) for VerifyRefFull / VerifyRef / VerifyRefFromEntry. Second campaign (shared keys): 2-4 principals over a pool of 3-4 keys (bare keys, persons with 1-2 keys; a key is usually listed under several principals), a rule for main, a global threshold k on main, one push signed by any key plus an authorization signed by any subset; accept => the rule's and the policy's principals can be matched to >= threshold / >= k distinct validly signing keys (checked on each of 8 repeated verifications, because which principal a shared key is credited to depends on map order). Non-trivial: a global rule present and (the delegation rules alone reject the history, or a force push occurs)")
+	s.SetRule("rapid: the C01 worlds whose policy states additionally declare 0-3 global rules (threshold k in 1..3 or block-force-pushes; patterns matching the verified ref, another ref, a wildcard or nothing), with pushes, force pushes (non-descendant commits), approvals, annotations and policy changes. Oracles: (i) metamorphic monotonicity - the same history is built under P+G and under P alone, accept(P+G) => accept(P); (ii)/(iii) the reference model with global rules (policy-wide credit below k or a non-descendant target => reject, rule credit >= k and descendant => accept, in between unspecified) for VerifyRefFull / VerifyRef / VerifyRefFromEntry. Second campaign (shared keys): 2-4 principals over a pool of 3-4 keys (bare keys, persons with 1-2 keys; a key is usually listed under several principals), a rule for main, a global threshold k on main, one push signed by any key plus an authorization signed by any subset; accept => the rule's and the policy's principals can be matched to >= threshold / >= k distinct validly signing keys (checked on each of 8 repeated verifications, because which principal a shared key is credited to depends on map order). Third campaign (real repository): pushes of 1-3 commits over protected and unprotected paths under file rules plus a global rule that does not concern the branch; expected verdict = the file rules alone. Non-trivial: a global rule present and (the delegation rules alone reject the history, or a force push occurs)")
 	opt := wgOptions{Delegation: true, Globals: true, PropProtected: true}
 	kit.Campaign(s, t, "globals", "world", s.Budget(8_000, 250_000), func(rt *rapid.T) c11Case {
 		cl := map[string]bool{}
@@ -261,4 +265,12 @@ func TestC11(t *testing.T) {
 	// principals with distinct keys (soundness bound by maximum matching), and the
 	// bound is checked on repeated verifications
 	kit.Campaign(s, t, "shared-keys", "shared", s.Budget(3_000, 80_000), genC11Shared, runShared)
+	// file rules under a global rule that does not concern the branch (real
+	// repository; the scenario and oracle of C10's verdict campaign): what the
+	// file rules alone reject must stay rejected whatever global rule is declared
+	kit.Campaign(s, t, "file-rules-under-global", "verdict", s.Budget(32, 1_200), func(rt *rapid.T) c10VerdictCase {
+		c := genC10Verdict(rt)
+		c.Global = rapid.SampledFrom([]string{"threshold-other-ref", "force-other-ref"}).Draw(rt, "forcedglobal")
+		return c
+	}, func(c c10VerdictCase) *kit.Failure { return runC10Verdict(t, s, c) })
 }
